@@ -24,7 +24,9 @@ EXPLANATION = (
     "type; (D6) each keyword is combined in the direction of an intersection: upper bounds (`max*`) by min, lower bounds "
     "(`min*`) by max, `uniqueItems` by or, `required` by union, type lists by intersection, and both operands of each "
     "combination are the *same* member of the two schemas; (D7) a call inside a binary merge that is handed members of both "
-    "operands is handed the same members of each (`f(a.x, a.y, b.x, b.y)`, never `f(a.x, a.y, b.x, a.y)`)."
+    "operands is handed the same members of each (`f(a.x, a.y, b.x, b.y)`, never `f(a.x, a.y, b.x, a.y)`); (D8) two `let`s of a binary merge that compute the same thing for the two "
+    "operands (same shape once the operand is abstracted) are mirror images of each other — `chain(pad(a.additional))` for a, "
+    "`chain(pad(b.additional))` for b."
 )
 ASSUMPTIONS = ["the pairwise merge functions compute intersections (not decided)"]
 
@@ -47,6 +49,7 @@ def run(facts, rep, tier):
     run_d5(facts, rep, tier)
     run_d6(facts, rep, tier)
     run_d7(facts, rep, tier)
+    run_d8(facts, rep, tier)
     # ------------------------------------------------------------ consumption of Result<_, ()>
     n = 0
     for h in c.user_fns():
@@ -404,6 +407,10 @@ def run_d5(facts, rep, tier):
         for m, _ in nodes(h["body"], "match"):
             if m.get("src") == "normal" and "InstanceType" in c.ty(m.get("scty")):
                 sites.append((h, m))
+    if not sites:
+        # second shape: the value is classified once (`match value { Value::X => InstanceType::Y, .. }`) and compared with the type
+        if classify_form(facts, rep, kinds):
+            return
     if not rep.floor("C09.D5", "instance-type test over a JSON value", len(sites), 1):
         return
     h, m = sites[0]
@@ -514,3 +521,80 @@ def run_d7(facts, rep, tier):
                        (n.get("fn") or n.get("name") or "?").split("::")[-1], [x.replace("$X", "a") for x in s0], [x.replace("$X", "b") for x in s1]), n.get("sp"))
             k_in += 1
     rep.floor("C09.D7", "calls handed members of both operands", n7, 8)
+
+
+def classify_form(facts, rep, kinds):
+    """`let actual = match value { Value::Null => InstanceType::Null, Value::Number(n) if n.is_f64() => .., .. }; actual == *it`:
+    evaluate the classifier over the JSON kinds; a type T then admits exactly the kinds classified as T."""
+    c = facts.impl
+    for h in c.user_fns():
+        f = c.fns.get(h["fn"], {})
+        ins = f.get("inputs", [])
+        if not (any(t.replace("&", "").strip().endswith("schema::InstanceType") for t in ins) and any(kinds.is_value_ty(t) for t in ins)):
+            continue
+        vname = None
+        for i, t in enumerate(ins):
+            if kinds.is_value_ty(t) and i < len(h.get("params", [])) and h["params"][i].get("k") == "bind":
+                vname = h["params"][i]["name"]
+        ev = kinds.Eval(c)
+        for m, _ in nodes(h["body"], "match"):
+            if m.get("src") != "normal" or not kinds.is_value_ty(c.ty(m.get("scty")) or ""):
+                continue
+            cls = {}
+            remaining = frozenset(kinds.ALL)
+            usable = True
+            for a in m["arms"]:
+                ty = [x.get("path", x.get("fn", "")).split("::")[-1] for x, _ in walk(a["body"]) if (x.get("k") == "path" and "InstanceType::" in x.get("path", ""))]
+                may, maynot = ev.test(m["scrut"], a["pat"], remaining, vname)
+                if a.get("guard") is not None:
+                    binds = [b_["name"] for b_, _ in walk(a["pat"]) if b_.get("k") == "bind"]
+                    t_, f_ = ev.cond(a["guard"], may, binds[0] if binds else vname)
+                    maynot = frozenset(maynot | f_)
+                    may = t_
+                if len(ty) != 1:
+                    usable = False
+                    break
+                cls.setdefault(ty[0], set()).update(may)
+                remaining = frozenset(remaining & maynot)
+            if not usable or not cls:
+                continue
+            eqs = [x for x, _ in walk(h["body"]) if x.get("k") == "bin" and x.get("op") == "Eq"]
+            if not eqs:
+                continue
+            rep.floor("C09.D5", "instance-type test over a JSON value", 1, 1)
+            for name, need in TYPE_KINDS.items():
+                got = cls.get(name, set())
+                miss = sorted(need - got)
+                rep.ob("C09.D5", "type-admits-its-kinds:%s" % name, not miss, "%s admits %s" % (name, sorted(got)) if not miss else
+                       "the value is classified before it is compared with the schema's type, and %s values are never classified as `%s`: valid enum values of that kind are filtered out of a merged schema, so the generated type rejects valid instances" % ("/".join(miss), name.lower()), m.get("sp"))
+            return True
+    return False
+
+
+def run_d8(facts, rep, tier):
+    c = facts.impl
+    n8 = 0
+    for h in c.user_fns():
+        ins = c.fns.get(h["fn"], {}).get("inputs", [])
+        if len(ins) < 2 or ins[0] != ins[1] or "schema" not in ins[0].lower():
+            continue
+        cn = PCanon(c, h, 3)
+        k_in = 0
+        for blk, _ in walk(h["body"]):
+            if blk.get("k") != "block":
+                continue
+            lets = [st for st in blk.get("stmts", []) if st.get("k") == "let" and st.get("init") is not None]
+            texts = [(st, cn.r(st["init"])) for st in lets]
+            for i in range(len(texts) - 1):
+                (s1, t1), (s2, t2) = texts[i], texts[i + 1]
+                if ("$P0" not in t1 and "$P1" not in t1) or ("$P0" not in t2 and "$P1" not in t2):
+                    continue
+                shape = lambda t: t.replace("$P0", "$X").replace("$P1", "$X")
+                if shape(t1) != shape(t2) or t1 == t2:
+                    continue
+                n8 += 1
+                ok = swap_sides(t1, "#", "#") == t2
+                rep.ob("C09.D8", "paired-lets-mirror:%s#%d" % (h["fn"], k_in), ok, "`%s` and `%s` are mirror images" % (psrc(s1["pat"]), psrc(s2["pat"])) if ok else
+                       "`%s` and `%s` compute the same thing for the two operands but are not mirror images (`%s` vs `%s`): one operand's member is used for both, so a constraint of the other side is lost and the result depends on subschema order" % (psrc(s1["pat"]), psrc(s2["pat"]), t1[-80:], t2[-80:]), s2.get("sp") or s1.get("sp"))
+                k_in += 1
+    rep.floor("C09.D8", "pairs of lets computed per operand", n8, 1)
